@@ -15,6 +15,7 @@ package simrt
 
 import (
 	"fmt"
+	"os"
 	"runtime"
 	"runtime/debug"
 	"sort"
@@ -760,4 +761,15 @@ func (r *Result) SortedPairs() [][2]int {
 		return out[i][1] < out[j][1]
 	})
 	return out
+}
+
+var realStack = os.Getenv("SIM_REAL_STACK") != ""
+
+// Stack replaces runtime/debug.Stack in instrumented code: goatcore's error values capture
+// a stack trace each; no oracle reads it.
+func Stack() []byte {
+	if realStack {
+		return debug.Stack()
+	}
+	return []byte("(stack trace omitted in simulation)")
 }
